@@ -72,13 +72,13 @@ func lenAnswer(kind string, rest []byte) (ans string) {
 	}
 	if err != nil {
 		e := kit.ConvertError(file, err)
-		return "!" + strconv.FormatUint(uint64(e.Index()), 10) + ":" + hxs(e.Message())
+		return "!" + strconv.FormatUint(uint64(e.Index()), 10) + ":" + hxs(canonQuotes(e.Message()))
 	}
 	return strconv.FormatUint(uint64(l), 10)
 }
 
 func renderJErr(je *jerr.JApiError, data []byte) string {
-	return "err:" + hxs(canonScanMsg(je.Msg, data, uint64(je.Index))) + ":" + strconv.FormatInt(int64(je.Index), 10)
+	return "err:" + hxs(canonMsg(je.Msg, data, uint64(je.Index))) + ":" + strconv.FormatInt(int64(je.Index), 10)
 }
 
 func execScan(c *Case) (r workerResult) {
